@@ -22,6 +22,7 @@ def ConvertValue.lead : ConvertValue Rat → Rat
 def buEps : Rat := Gen.BEST_EPS.rat
 
 theorem buEps_val : buEps = 1 / 1000 := by decide +kernel
+theorem bu_eps_nonneg : 0 ≤ buEps := by decide +kernel
 
 /-- the entry test of `best_unit`: `norm >= th - 0.001` -/
 def buTest (norm : Rat) (e : Rat × Unit Rat) : Bool := decide (e.1 - buEps ≤ norm)
@@ -293,5 +294,110 @@ theorem bu_choice {c : Converter Rat} (hc : c.Sound) (hok : c.BestOK) (hpos : c.
     rcases List.mem_cons.mp he' with rfl | hp
     · exact Rat.le_refl
     · exact (List.pairwise_cons.mp hsorted).1 e' hp
+
+/-! ### consequences: the value in the chosen unit, idempotence -/
+
+theorem bu_mul_lt_mul_right' {a b r : Rat} (hr : 0 < r) (h : a * r < b * r) : a < b :=
+  (Rat.mul_lt_mul_right hr).mp h
+
+/-- a value whose amount passes the test of `b` reads at least `1 - 0.001` in `b` (the slack is 0.001 of the FIRST
+    unit, which is not larger than `b`) -/
+theorem bu_passes_value {base b a : Unit Rat} {x w : Rat} (hbase : 0 < base.ratio) (hle : base.ratio ≤ b.ratio)
+    (hp : buPasses base b (amount x a)) (hw : amount w b = amount x a) : 1 - buEps ≤ w := by
+  have hb : 0 < b.ratio := by grind
+  unfold buPasses at hp
+  rw [← hw, amount_rat, amount_rat] at hp
+  have heps : 0 ≤ buEps := bu_eps_nonneg
+  have h1 : buEps * base.ratio ≤ buEps * b.ratio := Rat.mul_le_mul_of_nonneg_left hle heps
+  have h2 : (1 + b.difference - buEps) * b.ratio ≤ (w + b.difference) * b.ratio := by grind
+  have := (bu_mul_le_mul_right hb).mp h2
+  grind
+
+/-- a value whose amount fails the test of `x` reads less than `1` in `x` -/
+theorem bu_fails_value {base x a : Unit Rat} {v w : Rat} (hbase : 0 < base.ratio) (hx : 0 < x.ratio)
+    (hp : ¬ buPasses base x (amount v a)) (hw : amount w x = amount v a) : w < 1 := by
+  unfold buPasses at hp
+  rw [← hw, amount_rat, amount_rat] at hp
+  have hp' := Rat.not_le.mp hp
+  have heps : 0 ≤ buEps := bu_eps_nonneg
+  have h1 : 0 ≤ buEps * base.ratio := Rat.mul_nonneg heps (Rat.le_of_lt hbase)
+  have h2 : (w + x.difference) * x.ratio < (1 + x.difference) * x.ratio := by grind
+  have := bu_mul_lt_mul_right' hx h2
+  grind
+
+/-- the normalised value depends on the amount only -/
+theorem bu_norm_of_amount {c : Converter Rat} (hc : c.Sound) {a b base : Unit Rat} (ha : a ∈ c.allUnits)
+    (hb : b ∈ c.allUnits) (hbase : base ∈ c.allUnits) (hab : b.pq = a.pq) {x y norm : Rat}
+    (hn : convertF64 x a base = some norm) (hamt : amount y b = amount x a) :
+    convertF64 y b base = some norm := by
+  have hpq : a.pq = base.pq := convertF64_some_pq hn (hc.id_inj _ _ ha hbase)
+  obtain ⟨n', hn', ha'⟩ := convertF64_amount y b base (hab.trans hpq) (hc.ratio_ne _ hbase) (hc.id_inj _ _ hb hbase)
+  have h1 := convertF64_some_amount hn (hc.ratio_ne _ hbase) (hc.id_inj _ _ ha hbase)
+  have : n' = norm := amount_inj (hc.ratio_ne _ hbase) (by rw [ha', hamt, h1])
+  rw [hn', this]
+
+/-- **Idempotence of the choice.**  If `best_unit` picks `b` for a value in `u`, it picks `b` again for every value in
+    `b` whose leading number has the same physical amount (same list: `b` is of `u`'s quantity). -/
+theorem bu_idempotent {c : Converter Rat} (hc : c.Sound) {u : Unit Rat} (hu : u ∈ c.allUnits) (s : System)
+    {value value' : ConvertValue Rat} {b : Unit Rat}
+    (h : ((c.best u.pq).conversions s).bestUnit value u = .ok (some b))
+    (hamt : amount (Rat.abs value'.lead) b = amount (Rat.abs value.lead) u) :
+    ((c.best b.pq).conversions s).bestUnit value' b = .ok (some b) := by
+  have hbm := hc.best_mem _ _ _ (bestUnit_mem h)
+  rw [hbm.2]
+  obtain ⟨base, rest, norm, he, hn, hb⟩ := bu_bestUnit_some h
+  have hbase := hc.best_mem _ _ _ (List.mem_map.mpr ⟨base, (by rw [he]; simp), rfl⟩)
+  have hn' := bu_norm_of_amount hc hu hbm.1 hbase.1 hbm.2 hn hamt
+  rw [bu_bestUnit_of he hn', ← hb]
+
+theorem bu_convertValue_lead {value value' : ConvertValue Rat} {a b : Unit Rat}
+    (h : convertValue value a b = .ok value') : convertF64 value.lead a b = some value'.lead := by
+  unfold convertValue at h
+  cases value with
+  | number n =>
+    simp only at h
+    split at h
+    · cases h
+    · rename_i r hr
+      simp only [Except.ok.injEq] at h; subst h
+      exact hr
+  | range s e =>
+    simp only at h
+    split at h
+    · cases h
+    · rename_i s' hs
+      split at h
+      · cases h
+      · simp only [Except.ok.injEq] at h; subst h
+        exact hs
+
+theorem bu_convertValue_self (value : ConvertValue Rat) (b : Unit Rat) : convertValue value b b = .ok value := by
+  cases value <;> simp [convertValue, convertF64]
+
+/-- `convert_to_best` applied to its own result is the identity, for non-negative leading numbers (the case of every
+    quantity of a recipe; with offsets — temperatures — a negative value does not have the amount of its absolute
+    value, and the choice is made on the absolute value) -/
+theorem bu_convertToBest_idempotent {c : Converter Rat} (hc : c.Sound) {u : Unit Rat} (hu : u ∈ c.allUnits)
+    (s : System) {value value' : ConvertValue Rat} {b : Unit Rat}
+    (h : c.convertToBest value u s = .ok (value', b)) (h0 : 0 ≤ value.lead) (h0' : 0 ≤ value'.lead) :
+    c.convertToBest value' b s = .ok (value', b) := by
+  unfold Converter.convertToBest at h
+  split at h
+  · cases h
+  · cases h
+  · rename_i best hbest
+    split at h
+    · cases h
+    · rename_i v hv
+      simp only [Except.ok.injEq, Prod.mk.injEq] at h
+      obtain ⟨rfl, rfl⟩ := h
+      have hbm := hc.best_mem _ _ _ (bestUnit_mem hbest)
+      have hlead := bu_convertValue_lead hv
+      have hamt := convertF64_some_amount hlead (hc.ratio_ne _ hbm.1) (hc.id_inj _ _ hu hbm.1)
+      have := bu_idempotent hc hu s (value' := v) hbest
+        (by rw [Rat.abs_of_nonneg h0, Rat.abs_of_nonneg h0']; exact hamt)
+      unfold Converter.convertToBest
+      rw [this]
+      simp only [bu_convertValue_self]
 
 end Cook
